@@ -13,7 +13,10 @@ HREFS = ['/1', '/2', '/3', '/news/1', '/news/2', '/news/3', 'https://www.example
          'https://h.test/search?', 'https://h.test/search', 'https://h.test/data/#', 'https://h.test/data/', 'https://h.test/a\tb', 'https://h.test/ab',
          'http://Host.test?Q=A', 'http://host.test?q=a', ' https://h.test/search', 'http://[server]/x', 'http://[::1/x']
 INNER = ['', '<img src="i.png" alt="Logo">', '<img src="i.png">', '<img alt="">', '<script>var a=1;</script>', '<style>a{}</style>',
-         '<span>in span</span>', '<svg><title>t</title></svg>', '<b>bold</b> ', '<!-- c -->']
+         '<span>in span</span>', '<svg><title>t</title></svg>', '<b>bold</b> ', '<!-- c -->',
+         # several hidden / replaced children in one link, in every order
+         '<svg><title>icon</title></svg><img src="p.png" alt="Partner">', '<script>var a=1;</script><img alt="after script">', '<svg><title>a</title></svg><svg><title>b</title></svg>',
+         '<img src="i.png" alt="One"><img src="j.png" alt="Two">', '<style>a{}</style><span><img alt="deep"></span>', '<svg><g><title>nested</title></g></svg><script>x()</script><img src="k.png" alt="Third">']
 
 
 def gen_page(rng, n=None, texts=None, hrefs=None):
@@ -229,6 +232,8 @@ def run(rep, ctx):
               ('<a href="/x">A</a><a href="/y">B</a>', '<a href="/y">A</a><a href="/x">B</a>'),
               ('<a href="/p1">Pony time!</a><a href="/p2">Pony time!</a>', '<a href="/p2">Pony time!</a><a href="/d">Donkey time.</a>'),
               ('<a href="https://h.test/search?">S</a><a href="https://h.test/search">S</a><a href="https://h.test/data/#">D</a>', '<a href="https://h.test/search">S</a><a href="https://h.test/data/">D</a>'),
+              ('<a href="/p"><svg><title>icon</title></svg><img src="a.png" alt="Acme"></a><a href="/p"><svg><title>icon</title></svg><img src="b.png" alt="Bolt"></a>',
+               '<a href="/p"><svg><title>icon2</title></svg><img src="a.png" alt="Acme"></a>'),
               ('<a href="http://Host.test?Q=A">q</a>', '<a href="http://host.test?q=a">q</a>'), ('<a href="https://h.test/a\tb">t</a>', '<a href="https://h.test/ab">t</a>')]
     # small-scope exhaustive: every page of at most 2 (quick) / 3 (thorough, sampled down to every other page) links over 3 texts
     # (two differing in case only) x 3 targets (one in-page) against every other one
